@@ -24,3 +24,23 @@ fn c13_5a_panning_control() {
     kani::cover!(p > 1.0);
     core::mem::forget(info); core::mem::forget(c); core::mem::forget(w);
 }
+
+// @ob id=C13.5b strength=bounded tier=quick bound="chunks of 1, 2 and 3 frames; centre panning; grid input" fn=effect/panning_control.rs::<PanningControl as Effect>::process
+// @req centre panning, a chunk of n frames, n in {1, 2, 3}
+// @ens the identity for every chunk length (also a one-frame chunk)
+#[kani::proof]
+#[kani::unwind(8)]
+fn c13_5b_panning_control_any_chunk_length() {
+    let (w, r) = command_writers_and_readers();
+    let mut c = PanningControl::new(PanningControlBuilder(Value::Fixed(Panning(0.0))), r);
+    let n: usize = kani::any();
+    kani::assume(n >= 1 && n <= 3);
+    let x = [grid_frame(), grid_frame(), grid_frame()];
+    let mut buf = x;
+    let info = empty_info();
+    c.process(&mut buf[..n], 1.0 / 48000.0, &info);
+    let mut i = 0;
+    while i < 3 { assert!(buf[i].left == x[i].left && buf[i].right == x[i].right, "C13.5b: centre panning is the identity for every chunk length"); i += 1; }
+    kani::cover!(n == 1);
+    core::mem::forget(info); core::mem::forget(c); core::mem::forget(w);
+}
